@@ -39,6 +39,22 @@ CLAIMED = {
             'transaction succeeds. Exhaustive over the enumerated placements only.',
             'Trusted: CPython, harness codecs, shared virtual clock; C05.c asserted only under protocol-sane timers (T_seg + 2*D_max < T_out, retries >= 1).',
             'DESIGN.md section 3 (C05)'),
+    'C11': ('exploration',
+            'deterministic simulation: seeded exploration of overlapping transactions with fault injection and an adversary station; differential baseline',
+            'Seeded runs of 1-40 overlapping requests over 1-4 slow servers (forced invoke-id collisions, 8-bit counter wrap with pinned live ids, two clients '
+            'with equal ids, IOCB cancel) under hashed drop/dup/delay plans and a promiscuous adversary injecting foreign / wrong-id / replayed frames. '
+            'Oracles: no two live requests of a stack share (peer, id); every ack carries its own request token and payload; no stray confirmation; '
+            'the same run without adversary frames has identical per-request outcomes; no re-indication while a server transaction is open.',
+            'Trusted: harness attribution by (peer, invoke id, submit order); reuse of an id the client gave up on locally is a legal ambiguity and exempt.',
+            'DESIGN.md section 3 (C11)'),
+    'C12': ('exploration',
+            'deterministic simulation: configuration swarm x boundary payload lengths, wire monitor with independent decoder against capabilities announced on the wire',
+            'Each run draws independent capabilities for both sides (six max-APDU sizes x four segmentation values x max-segments x window 1..127), lets both '
+            'announce I-Am and runs echo transactions with lengths on every resulting boundary; 20% of runs add drops/delays. The wire monitor checks every '
+            'emitted APDU against the max-APDU / max-segments / segmented-response-accepted bits of the request being answered or the I-Am delivered before the '
+            'transfer started, window ranges and negotiation, and that infeasible transfers end in an abort for the requester.',
+            'Trusted: harness decoder and capability model; limits are taken from the wire; I-Am knowledge counts as of the start of a transfer.',
+            'DESIGN.md section 3 (C12)'),
 }
 
 PLANNED = {k: 'check not built yet in this revision (deterministic-simulation check planned, DESIGN.md section 3); not claimed until it exists'
